@@ -10,16 +10,16 @@ CLI_PROPS = {"C13", "C14", "C15", "C16", "C17", "C18", "C19", "C20"}
 PLAN = {
     "C01": ["exprparens", "trivia", "calls", "nest", "types", "block", "strings", "literals", "corpus", "sortrequires", "interp"],
     "C02": ["exprparens", "trivia", "calls", "nest", "types", "block", "corpus", "interp"],
-    "C03": ["trivia", "block", "exprparens", "corpus"],
+    "C03": ["trivia", "layout", "block", "exprparens", "corpus"],
     "C04": ["strings", "literals", "corpus"],
     "C05": ["exprparens"],
     "C08": ["block", "sortrequires", "corpus"],
     "C09": ["blockrange", "sortrequires"],
-    "C11": ["calls", "strings", "corpus"],
+    "C11": ["calls", "trivia", "strings", "corpus"],
     "C12": ["sortrequires", "corpus"],
     "C10": ["layout", "trivia", "corpus"],
-    "C06": ["exprparens", "trivia", "calls", "nest", "types", "block", "sortrequires", "corpus", "interp"],
-    "C07": ["nest", "exprparens", "trivia", "calls", "block", "strings", "literals", "corpus", "invalid", "interp"],
+    "C06": ["exprparens", "trivia", "calls", "nest", "types", "block", "sortrequires", "corpus", "interp", "layout"],
+    "C07": ["nest", "exprparens", "trivia", "calls", "block", "strings", "literals", "corpus", "invalid", "interp", "types"],
 }
 
 LUAU_CTX = {"compound", "ifexp_then", "ifexp_else"}
@@ -109,7 +109,7 @@ def src_trivia(tier, seed):
         c["id"] = "tv%d" % i
         c["sweep"] = sweep
         c["layout"]["profile"] = "spaced"
-        c["want"] = ["reformat", "lines"]
+        c["want"] = ["reformat", "lines"] + (["calls", "strings"] if g == "call" else [])
         cases.append(c)
     return cases, st
 
@@ -131,7 +131,7 @@ def src_layout(tier, seed):
             d["sweep"] = {"line_endings": ["Unix", "Windows"], "indent_type": ["Tabs", "Spaces"],
                           "indent_width": [1, 2, 3, 4, 8] if tier == "quick" else [1, 2, 3, 4, 5, 6, 7, 8, 16],
                           "column_width": [120, 20] if tier == "quick" else [120, 40, 20, 1]}
-            d["want"] = ["lines"]
+            d["want"] = ["lines", "reformat"]
             cases.append(d)
     return cases, st
 
@@ -143,6 +143,8 @@ def _block_cases(cfgname, name, prefix, extra_sweep=None):
     for i, c in enumerate(raw):
         c["id"] = "%s%d" % (prefix, i)
         c["sweep"] = dict(extra_sweep or {"column_width": [120, 12]})
+        if any(k in ("if", "func") for k in c["meta"].get("prog", [])) and "range_markers" not in c:
+            c["sweep"]["collapse_simple_statement"] = ["Never", "Always"]
         c["want"] = ["stmts", "lines", "reformat"]
         cases.append(c)
     return cases, st
@@ -253,7 +255,7 @@ def src_strings(tier, seed):
             d = dict(c)
             d["id"] = "str%d:%s" % (i, sx)
             d["syntax"] = sx
-            d["positions"] = ["expr", "callarg", "tablekey", "index", "method", "index_par", "tablekey_par", "callarg_par"] if len(c["body"]) <= 2 and sx == "Lua54" else ["expr"]
+            d["positions"] = ["expr", "callarg", "tablekey", "index", "method", "index_par", "tablekey_par", "callarg_par", "index_cat", "tablekey_cat"] if len(c["body"]) <= 2 and sx == "Lua54" else ["expr"]
             cases.append(d)
     stats["cases"] = len(cases)
     return cases, stats
@@ -266,7 +268,7 @@ def src_literals(tier, seed):
     for i, c in enumerate(raw):
         c["id"] = "lit%d" % i
         if c["kind"] == "longlit":
-            c["positions"] = ["expr", "callarg", "tablekey", "index", "method", "index_par", "tablekey_par", "callarg_par"] if len(c["body"]) <= 2 else ["expr", "index"]
+            c["positions"] = ["expr", "callarg", "tablekey", "index", "method", "index_par", "tablekey_par", "callarg_par", "index_cat", "tablekey_cat"] if len(c["body"]) <= 2 else ["expr", "index"]
         else:
             c["positions"] = ["expr"]
         cases.append(c)
